@@ -340,9 +340,19 @@ Section RT.
     intros (q & Hq & H). symmetry in H. apply app_eq_app in H. destruct H as (l & [[-> ->]|[-> ->]]).
     - right. exists l. split; [reflexivity|]. exists q. split; [assumption|reflexivity].
     - destruct l as [|x l].
-      + right. exists []. rewrite app_nil_r. split; [reflexivity|]. exists b. cbn in *. split; [subst; assumption|reflexivity].
+      + right. exists []. rewrite !app_nil_r. split; [reflexivity|]. exists b. cbn in *. split; [assumption|reflexivity].
       + left. exists (x :: l). split; [discriminate|reflexivity].
   Qed.
+
+  (* the self-delimiting library types C02 lists: everything except the trailing array, NBT
+     (delegated to pynbt) and the nested packet-specific types (C05) *)
+  Fixpoint self_delim (t : ftype) : bool :=
+    match t with
+    | TTrailing | TNBT | TCustom _ => false
+    | TFixed b _ => self_delim b
+    | TArray l e => self_delim l && self_delim e
+    | _ => true
+    end.
 
   Definition PE (t : ftype) (v : value) : Prop :=
     forall bs, enc c t v = Ok bs -> forall p, sprefix p bs -> exists e, dec c nbt_split t p = Err e.
@@ -423,9 +433,9 @@ Section RT.
     intro H. inversion H. exists x, y, z. repeat split; reflexivity.
   Qed.
 
-  Theorem pe_all : forall t v, in_dom t v -> PE t v.
+  Theorem pe_all : forall t v, self_delim t = true -> in_dom t v -> PE t v.
   Proof.
-    induction t as [ | | | | | | | | | | | | | | |base IHbase n| | | | | |lt IHl et IHe|cid]; intros v Hd.
+    induction t as [ | | | | | | | | | | | | | | |base IHbase n| | | | | |lt IHl et IHe|cid]; intros v Hsd Hd.
     - (* TBool *) destruct v; try contradiction. intros bs Hb p Hp. cbn [enc] in Hb. inversion Hb; subst.
       apply sprefix_length in Hp. destruct p; [|cbn in Hp; lia]. cbn. eexists; reflexivity.
     - destruct v; try contradiction. apply pe_int_type; [reflexivity|exact Hd].
@@ -446,7 +456,7 @@ Section RT.
       destruct (varint_send (Z.of_nat (length b))) as [l| |] eqn:El; cbn [rbind bind] in Hb; try discriminate.
       inversion Hb; subst bs. cbn [dec].
       apply sprefix_app in Hp. destruct Hp as [Hp|(p' & -> & Hp')].
-      + rewrite (pe_varint 5 _ l p ltac:(lia) ltac:(lia) El Hp). eexists; reflexivity.
+      + rewrite (pe_varint 5 (Z.of_nat (length b)) l p ltac:(lia) ltac:(lia) El Hp). eexists; reflexivity.
       + destruct (rt_varint 5 (Z.of_nat (length b)) ltac:(lia) ltac:(lia)) as (l' & Hl' & _ & Hr).
         rewrite El in Hl'. inversion Hl'; subst l'. rewrite Hr. cbn [rbind bind fst snd].
         apply sprefix_length in Hp'. rewrite take_z_short by lia. eexists; reflexivity.
@@ -471,7 +481,7 @@ Section RT.
       destruct (varint_send (Z.of_nat (length b))) as [l| |] eqn:El; cbn [rbind bind] in Hb; try discriminate.
       inversion Hb; subst bs. cbn [dec].
       apply sprefix_app in Hp. destruct Hp as [Hp|(p' & -> & Hp')].
-      + rewrite (pe_varint 5 _ l p ltac:(lia) ltac:(lia) El Hp). eexists; reflexivity.
+      + rewrite (pe_varint 5 (Z.of_nat (length b)) l p ltac:(lia) ltac:(lia) El Hp). eexists; reflexivity.
       + destruct (rt_varint 5 (Z.of_nat (length b)) ltac:(lia) ltac:(lia)) as (l' & Hl' & _ & Hr).
         rewrite El in Hl'. inversion Hl'; subst l'. rewrite Hr. cbn [rbind bind fst snd].
         apply sprefix_length in Hp'. rewrite take_z_short by lia. eexists; reflexivity.
@@ -480,10 +490,10 @@ Section RT.
       destruct vs as [|[| x| | | | |] [|[| y| | | | |] [|[| z| | | | |] [|]]]]; try contradiction.
       intros bs Hb p Hp. cbn [enc dec] in *. rewrite (pe_int _ _ _ _ _ Hb Hp). eexists; reflexivity.
     - (* TNBT: not self-delimiting in the sense of C02 (delegated to the NBT library); excluded *)
-      destruct v as [| | |b| | |]; try contradiction. admit.
+      discriminate Hsd.
     - (* TArray *) destruct v as [| | | | |vs|]; try contradiction. destruct Hd as (Hit & Hr & Hall).
       intros bs Hb p Hp. cbn [enc] in Hb.
-      destruct (enc lt (VInt (Z.of_nat (length vs)))) as [l| |] eqn:El; cbn [rbind bind] in Hb; try discriminate.
+      destruct (enc c lt (VInt (Z.of_nat (length vs)))) as [l| |] eqn:El; cbn [rbind bind] in Hb; try discriminate.
       destruct (enc_list (enc c et) vs) as [body| |] eqn:Ebody; cbn [rbind bind] in Hb; try discriminate.
       inversion Hb; subst bs. cbn [dec].
       apply sprefix_app in Hp. destruct Hp as [Hp|(p' & -> & Hp')].
@@ -491,9 +501,10 @@ Section RT.
       + destruct (rt_int_type lt _ Hit Hr) as (l' & Hl' & _ & Hrt). rewrite El in Hl'. inversion Hl'; subst l'.
         rewrite Hrt. cbn [rbind bind fst snd]. rewrite canon_int by assumption.
         assert (Forall (fun v => RT et v /\ PE et v) vs) as Hboth.
-        { clear - IHe Hall. induction Hall; constructor; auto. split; [apply rt_all; assumption|apply IHe; assumption]. }
+        { cbn [self_delim] in Hsd. apply andb_true_iff in Hsd. destruct Hsd as [_ Hse].
+          clear - IHe Hall Hse. induction Hall; constructor; auto. split; [apply rt_all; assumption|apply IHe; assumption]. }
         destruct (pe_list et vs Hboth body Ebody p' Hp' (S (length p')) ltac:(lia)) as (er & Her).
         rewrite Her. eexists; reflexivity.
-    - (* TCustom *) admit.
-  Admitted.
+    - (* TCustom *) discriminate Hsd.
+  Qed.
 End RT.
